@@ -67,6 +67,9 @@ CHECKS = {
     "C19": ("exploration", E1 + " (CLI commands x inputs x formats x filters, differential against the API in the same process)",
             "pyimpspec.cli.main() is run in-process for parse (mock specifiers and generated files x three formats x six filter sets, output to files, --average), circuit --simulate (plotted data sets captured), fit and drt (methods x options x formats x filters) and every subset/order of the six mock-specifier keys; every printed or written number is compared with the API call with the same settings (csv exact, json to its printed decimals, md to the printed digits).",
             "Commands run in-process with the Agg backend; plots are observed through the data sets handed to the plot functions.", "DESIGN.md section 4, C19"),
+    "C17": ("model_checking", E3 + "; repetition in fresh processes",
+            "Z-HIT with automatic options (4, 5 and 20 tasks per stage, three spectra incl. one whose candidates tie bit-for-bit), multi-method fits (incl. a constructed exact tie), evaluate_log_F_ext and cnls run under a controlled in-process pool: every feasible completion order for P = 2 (3) workers and for P = n in thorough, deviation-bounded (<= 1-2) otherwise; each execution is compared with the serial result. The TLC model of the pool (N tasks, P workers) supplies the completion orders independently: its terminal traces equal the enumerator's set and every one is replayed on the pool and on perform_zhit. Plus same-process and fresh-process repetition (different hash seeds), mock-data seeds, and a free-running sample with the real pool.",
+            "Workers share no memory and results travel by pickle, which the controlled pool reproduces; time-outs and OS scheduling are not modelled; BHT/TR-RBF are excluded (unseeded by design).", "DESIGN.md section 4, C17"),
 }
 
 NOT_YET = "check not built yet in this round (planned, see DESIGN.md section 4)"
